@@ -32,6 +32,13 @@ PROBE_C = [0, 1, 2, 4, 10, 11]
 assert len(TABLE) == 19
 # option kinds
 O_NONE, O_VALID, O_WRONG, O_STRUCT, O_FALSY, O_TYPEERR, O_BADFIELD, O_BADELEM = 0, 1, 2, 3, 4, 5, 6, 7
+# wrong-type option VALUES (option kind O_WV + v): the truthy singletons / scalars / containers / foreign objects a
+# caller may plausibly pass where an options object is expected.  All truthy (falsy values are finding
+# F27-falsy-options-ignored, kind O_FALSY).
+O_WV = 8
+WV_NAMES = ["True", "1", "1.0", "'yes'", "(1,)", "[0]", "{'a': 1}", "options object of another method's class",
+            "object()"]
+WV_OTHERCLASS = 7
 # methods whose options class has a list-typed field (a right-class object can carry wrong-typed content)
 BADFIELD_NAMES = (5, 7, 13, 14, 15)
 # chk tokens of the driver
@@ -58,6 +65,11 @@ def oracle(name_idx, okind):
         # not an LSP method / an LSP method without options class: options given for it are refused
         # (MethodTypeNotRegisteredError) - every time, whatever was attempted before
         return (truthy, False, CK_UNKNOWN)
+    if okind >= O_WV:
+        # a wrong-type value: an object of another method's options class that lacks a field of the declared
+        # class (SaveOptions for everything but didSave, HoverOptions for didSave), or a non-attrs value -
+        # either way the attribute lookup in cattrs fails for a declared class; a Union lets it through
+        okind = O_WRONG
     if okind in (O_BADFIELD, O_BADELEM) and name_idx not in BADFIELD_NAMES:
         okind = O_WRONG                              # no list field to spoil: an unrelated object instead
     if okind == O_BADFIELD:
@@ -212,6 +224,11 @@ class _Impl:
                     13: lambda: t.SignatureHelpOptions(trigger_characters=["("]),
                     14: lambda: t.CodeActionOptions(code_action_kinds=["quickfix"]),
                     }.get(ni, lambda: t.HoverOptions())()
+        if ok >= O_WV:
+            return [lambda: True, lambda: 1, lambda: 1.0, lambda: "yes", lambda: (1,), lambda: [0],
+                    lambda: {"a": 1},
+                    lambda: (t.HoverOptions(work_done_progress=True) if ni == 6 else t.SaveOptions(include_text=True)),
+                    lambda: object()][ok - O_WV]()
         if ok in (O_BADFIELD, O_BADELEM) and ni not in BADFIELD_NAMES:
             ok = O_WRONG
         if ok in (O_BADFIELD, O_BADELEM):
@@ -856,6 +873,23 @@ def expand_block(c):
     return out
 
 
+def wrong_value_cases():
+    """every wrong-type option value x methods whose options type is a class (4 5 6 13 14), a Union (7 15),
+    declared None (8), not declared at all (9 16) x {alone, after an accepted registration, after one and
+    followed by a valid registration of the same name}: `seq` cases"""
+    out = []
+    for ni in (5, 13, 4, 6, 14, 7, 15, 8, 9, 16):
+        prior = [0, 5 if ni == 4 else 4, O_VALID, 0, 0, T_NONE]
+        for v in range(len(WV_NAMES)):
+            for ctx in range(3):
+                att = [0, ni, O_WV + v, (v + ctx) % 2, (v + ni) % len(PARAMS), T_NONE]
+                seq = [att] if ctx == 0 else [prior, att]
+                if ctx == 2:
+                    seq = seq + [[0, ni, O_VALID, 0, 0, T_NONE]]
+                out.append({"k": "seq", "seq": seq})
+    return out
+
+
 class C19(core.Property):
     id = "C19"
     modules = ["Proofs.FeaturesProofs", "Props.C19"]
@@ -902,6 +936,8 @@ class C19(core.Property):
                     cases.extend(json.load(open(os.path.join(cdir, f))))
         rng = chk.rng
         nfull = len(letters("full"))
+        # the wrong-type option VALUES (truthy singletons, scalars, containers, foreign objects)
+        cases.extend(wrong_value_cases())
         # every sequence of length <= 2 over the full alphabet, with the initialize result (deep)
         cases.append({"k": "block", "alpha": "full", "prefix": [], "deep": True})
         for a in range(nfull):
@@ -1119,7 +1155,7 @@ class C19(core.Property):
     def search(self, chk):
         """failing-input search when a proof or the tie broke: corpus + every sequence <= 2 over the
         full alphabet + the shape product, judged by the reference S alone"""
-        cases = [c for c in self.generate(chk) if c["k"] == "seq"][:400]
+        cases = [c for c in self.generate(chk) if c["k"] == "seq"][:400 + len(wrong_value_cases())]
         cases += [{"k": "block", "alpha": "full", "prefix": [], "deep": True}]
         cases += [{"k": "block", "alpha": "full", "prefix": [a], "deep": True} for a in range(len(letters("full")))]
         out = []
